@@ -250,7 +250,7 @@ theorem isDisjoint_iff_pairwise_nonoverlap (t : List Cell) (hv : ∀ c ∈ t, c.
         simp only [Cell.period] at *
         rcases hov with hov | hov
         · exfalso; apply hov
-          rw [Date.le_iff] at *; rw [Date.lt_iff, Date.lt_iff] at hpq
+          rw [Date.le_iff] at *; rw [Date.lt_iff_sel, Date.lt_iff_sel] at hpq
           rcases hpq with hpq | ⟨e, hpq⟩
           · omega
           · rw [e]; omega
